@@ -76,6 +76,11 @@ inline bool canExpress(Kind k, const SDef& s) { return !s.hasNul || sized(k); }
 static const Kind kCopiedKinds[] = {CharPtr, CharArr, StdString, StringView, JsCopied, ArdString, Flash};
 static const Kind kLinkedKinds[] = {Lit, ConstPtr, JsLinkedP, JsDefault};
 
+template <class F, class X>
+__attribute__((noinline)) void callWith(F& f, X& x) {  // one out-of-line body per (call site, argument type)
+  f(x);
+}
+
 struct NulString : ::String {  // the stub only exposes sized construction through the protected concat()
   bool append(const char* p, size_t n) { return concat(p, n) != 0; }
 };
@@ -126,7 +131,7 @@ struct Source {
         memcpy(buf, bytes.data(), n);
         break;
       default:
-        bufSize = n + 1 + ((pad && !byAddress(kind)) ? 1 : 0);
+        bufSize = n + 1 + (((pad && !byAddress(kind)) || kind == CharArr) ? 1 : 0);
         buf = new char[bufSize];
         memset(buf, 0, bufSize);
         memcpy(buf, bytes.data(), n);
@@ -166,21 +171,21 @@ struct Source {
   void visitLiteral(F&& f) {
     switch (idx) {
 #define X(i, lit) \
-  case i: f(lit); break;
+  case i: callWith(f, lit); break;
       HXS_LITERALS(X)
 #undef X
-      case S_MAX: f(reinterpret_cast<const char(&)[65536]>(*bigLiteralStorage(S_MAX))); break;
-      case S_OVER: f(reinterpret_cast<const char(&)[65537]>(*bigLiteralStorage(S_OVER))); break;
+      case S_MAX: callWith(f, reinterpret_cast<const char(&)[65536]>(*bigLiteralStorage(S_MAX))); break;
+      case S_OVER: callWith(f, reinterpret_cast<const char(&)[65537]>(*bigLiteralStorage(S_OVER))); break;
       default: abort();
     }
   }
   template <class F>
-  void visitArray(F&& f) {  // char[N] with N = length + 1 (the padded variant has one more byte: N = length + 2)
+  void visitArray(F&& f) {  // char[N] with N = length + 2 (always the padded layout "s\0\0")
     size_t N = bufSize;
     switch (N) {
 #define A(N_) \
-  case N_: f(reinterpret_cast<char(&)[N_]>(*buf)); break;
-      A(1) A(2) A(3) A(4) A(5) A(6) A(21) A(22) A(32) A(33) A(34) A(65536) A(65537) A(65538)
+  case N_: callWith(f, reinterpret_cast<char(&)[N_]>(*buf)); break;
+      A(2) A(3) A(4) A(5) A(6) A(22) A(33) A(34) A(65537) A(65538)
 #undef A
       default: abort();
     }
@@ -190,16 +195,16 @@ struct Source {
   void visit(F&& f) {
     switch (kind) {
       case Lit: visitLiteral(f); break;
-      case ConstPtr: { const char* p = buf; f(p); break; }
-      case CharPtr: { char* p = buf; f(p); break; }
+      case ConstPtr: { const char* p = buf; callWith(f, p); break; }
+      case CharPtr: { char* p = buf; callWith(f, p); break; }
       case CharArr: visitArray(f); break;
-      case StdString: f(*ss); break;
-      case StringView: { std::string_view sv(buf, n); f(sv); break; }
-      case JsCopied: { JsonString js(buf, n, JsonString::Copied); f(js); break; }
-      case JsLinkedP: { JsonString js(buf, JsonString::Linked); f(js); break; }
-      case JsDefault: { JsonString js(buf); f(js); break; }
-      case ArdString: { const ::String& r = *as; f(r); break; }
-      case Flash: { const __FlashStringHelper* fp = reinterpret_cast<const __FlashStringHelper*>(convertPtrToFlash(buf)); f(fp); break; }
+      case StdString: callWith(f, *ss); break;
+      case StringView: { std::string_view sv(buf, n); callWith(f, sv); break; }
+      case JsCopied: { JsonString js(buf, n, JsonString::Copied); callWith(f, js); break; }
+      case JsLinkedP: { JsonString js(buf, JsonString::Linked); callWith(f, js); break; }
+      case JsDefault: { JsonString js(buf); callWith(f, js); break; }
+      case ArdString: { const ::String& r = *as; callWith(f, r); break; }
+      case Flash: { const __FlashStringHelper* fp = reinterpret_cast<const __FlashStringHelper*>(convertPtrToFlash(buf)); callWith(f, fp); break; }
       default: abort();
     }
   }
